@@ -1,6 +1,8 @@
 import Blue.Model.Kvs
 import Blue.Model.NextCompaction
 import Blue.Model.ApplyCompactionB
+import Blue.Model.StoreHist
+import Blue.Model.StoreHistGcB
 import Blue.Proofs.SpecBounds
 import Blue.Driver.Util
 /-! Driver verbs for the store model (instance `kvs`): point reads, invariants I1 ∧ I2 and
@@ -23,7 +25,19 @@ import Blue.Driver.Util
       L<upper>:… …` (the tree before in the order the version holds the files, then the outputs; `move`
     takes exactly one output) and `ingest <levels> :: <tree before> :: L0:<the new file>` answer the
     successor tree `L0=<id,id,…|-> L1=… …`; `apply`/`move` append `chosen=1|0:<failing conjuncts>` and
-    `outsok=1|0:<failing conjuncts>`: the Boolean forms of `Chosen t c` and `OutsOk t c outs`. -/
+    `outsok=1|0:<failing conjuncts>`: the Boolean forms of `Chosen t c` and `OutsOk t c outs`.
+    A compaction into the last level carries a third section `:: gc <key@ts!,…|->` (the tombstones
+    among its inputs) and the answer ends `newest=<0|1> sub=<0|1>`: `Blue.StoreHistGcB.newestKeptB`
+    on the payload flags, the inputs' and the outputs' versions, and "every output version is an
+    input version".
+
+    history-model verb (model `Blue.StoreHist.apply`, the function):
+    `hist write|reject <k[!],…> | rollover | flush :: <state before> :: <state after>` with a state
+    `seq=<n> vis=<n> mem=<vers> imm=<vers|none> L0:<id>:<first>:<last>:<sts>:<bts>:<vers> …`
+    (vers: `-` or comma-separated `khex@ts` | `khex@ts!`; level 0 in the order the version holds it)
+    answers the model's successor of the state BEFORE: `seq= vis= mem= imm= l0=<ids in search order>`
+    and, when the step added a file, ` file=<first>:<last>:<newest ts>:<vers>`.  The state after only
+    names the new file (its id). -/
 namespace Blue.Driver.C01
 open Blue.Driver Blue.Kvs Blue.Spec
 
@@ -298,18 +312,41 @@ def toTree (keys : List (List Nat)) (ids : List String) (nlev : Nat) (files : Li
 def handleApply (move : Bool) (toks : List String) : String :=
   match toks with
   | nlev :: lower :: upper :: first :: last :: ins :: "::" :: rest =>
-    let (fs, os) := splitAtSep rest
+    let (fs, os0) := splitAtSep rest
+    let (os, gcT) := splitAtSep os0
+    -- `gc <tombstones of the inputs>`: only on a compaction into the last level
+    let gcTombs : Option (Option (List RawEnt)) :=
+      match gcT with
+      | [] => some none
+      | ["gc", ts] => (parseEnts ts).map some
+      | _ => none
+    match gcTombs with
+    | none => "bad-op"
+    | some gcTombs =>
     match nlev.toNat?, lower.toNat?, upper.toNat?, parseHex first, parseHex last, allSome (fs.map parseFile), allSome (os.map parseFile) with
     | some nl, some lo, some up, some fk, some lk, some files, some outs =>
       if files.any (fun f => f.level ≥ nl) || outs.any (fun f => f.level ≠ up) then "bad-op" else
+      if gcTombs.isSome && (move || up + 1 ≠ nl) then "bad-op" else
       let keys := stepKeys files outs [fk, lk]
       let inputs := if ins = "-" then [] else ins.splitOn ","
       let ids := files.map (·.id) ++ outs.map (·.id) ++ inputs
       let t := toTree keys ids nl files
       let c : Blue.NextCompaction.Core := ⟨lo, up, rank keys fk, rank keys lk, inputs.map (idIndex ids), 0⟩
       let mouts := outs.map (toNF keys ids)
+      let gcFlags :=
+        match gcTombs with
+        | none => ""
+        | some tombs =>
+          let tv := vers keys tombs
+          let insV := (files.filter fun f => inputs.contains f.id).flatMap fun f => vers keys f.ents
+          let outV := outs.flatMap fun f => vers keys f.ents
+          let pay : Nat → Nat → Option Blue.StoreHist.Payload := fun k t =>
+            if tv.contains (k, t) then some none
+            else if insV.contains (k, t) || outV.contains (k, t) then some (some 0) else none
+          " newest=" ++ (if Blue.StoreHistGcB.newestKeptB pay insV outV then "1" else "0")
+            ++ " sub=" ++ (if Blue.StoreHistGcB.subB insV outV then "1" else "0")
       let flags := " " ++ renderFlags "chosen" (Blue.NextCompaction.chosenFlags t c)
-        ++ " " ++ renderFlags "outsok" (Blue.NextCompaction.outsOkFlags t c mouts)
+        ++ " " ++ renderFlags "outsok" (Blue.NextCompaction.outsOkFlags t c mouts) ++ gcFlags
       if move then
         match mouts with
         | [f] => renderTree ids (Blue.NextCompaction.applyTrivialMove t c f) ++ flags
@@ -331,8 +368,128 @@ def handleIngest (toks : List String) : String :=
     | _, _, _ => "bad-op"
   | _ => "bad-op"
 
+/-! ### the history model's steps as functions -/
+
+def parseHEnt (s : String) : Option RawEnt :=
+  match s.splitOn "@" with
+  | [k, rest] =>
+    let tomb := rest.endsWith "!"
+    let t := if tomb then (rest.dropEnd 1).toString else rest
+    match parseHex k, t.toNat? with
+    | some kb, some tn => some ⟨kb, tn, if tomb then none else some []⟩
+    | _, _ => none
+  | _ => none
+
+def parseHEnts (s : String) : Option (List RawEnt) :=
+  if s = "-" then some [] else allSome ((s.splitOn ",").map parseHEnt)
+
+def parseHFile (s : String) : Option RawFile :=
+  match s.splitOn ":" with
+  | ["L0", id, f, la, sts, bts, es] =>
+    match parseHex f, parseHex la, sts.toNat?, bts.toNat?, parseHEnts es with
+    | some fb, some lb, some s1, some b1, some e => some ⟨0, id, fb, lb, s1, b1, e⟩
+    | _, _, _, _, _ => none
+  | _ => none
+
+structure RawHist where
+  seq : Nat
+  vis : Nat
+  mem : List RawEnt
+  imm : Option (List RawEnt)
+  files : List RawFile
+
+def parseHState : List String → Option RawHist
+  | sq :: vi :: m :: i :: files =>
+    match (stripPrefix "seq=" sq).bind String.toNat?, (stripPrefix "vis=" vi).bind String.toNat?,
+        (stripPrefix "mem=" m).bind parseHEnts, stripPrefix "imm=" i, allSome (files.map parseHFile) with
+    | some seq, some vis, some mem, some imms, some fs =>
+      if imms = "none" then some ⟨seq, vis, mem, none, fs⟩
+      else (parseHEnts imms).map fun im => ⟨seq, vis, mem, some im, fs⟩
+    | _, _, _, _, _ => none
+  | _ => none
+
+def histEnts (s : RawHist) : List RawEnt := s.mem ++ (s.imm.getD []) ++ s.files.flatMap (·.ents)
+
+/-- `k[!],…`: the keys of a batch in batch order with their tombstone marks -/
+def parseBatch (s : String) : Option (List (List Nat × Bool)) :=
+  allSome ((s.splitOn ",").map fun k =>
+    let tomb := k.endsWith "!"
+    (parseHex (if tomb then (k.dropEnd 1).toString else k)).map fun kb => (kb, tomb))
+
+/-- versions in cursor order: key ascending, timestamp descending (nothing is merged) -/
+def insertVerAll (v : Ver Nat) : List (Ver Nat) → List (Ver Nat)
+  | [] => [v]
+  | x :: t => if vlt Nat.blt x v then x :: insertVerAll v t else v :: x :: t
+
+def cursorOrder (vs : List (Ver Nat)) : List (Ver Nat) := vs.foldr insertVerAll []
+
+def renderHVers (keys : List (List Nat)) (pay : Nat → Nat → Option Blue.StoreHist.Payload) (vs : List (Ver Nat)) : String :=
+  if vs.isEmpty then "-" else
+  ",".intercalate (vs.map fun v => hexOfBytes (keys.getD v.1 []) ++ "@" ++ toString v.2 ++
+    (match pay v.1 v.2 with
+     | some none => "!"
+     | some (some _) => ""
+     | none => "?"))
+
+def kfileEq (a b : KFile) : Bool := a.first == b.first && a.last == b.last && a.bts == b.bts && a.vers == b.vers
+
+def handleHist (toks : List String) : String :=
+  let (opT, r1) := splitAtSep toks
+  let (bT, aT) := splitAtSep r1
+  match parseHState bT, parseHState aT with
+  | some b, some a =>
+    let batch : Option (List (List Nat × Bool)) :=
+      match opT with
+      | [_, ks] => parseBatch ks
+      | _ => some []
+    match batch with
+    | none => "bad-op"
+    | some bt =>
+    let keys := (((histEnts b ++ histEnts a).map (·.key)) ++ (b.files ++ a.files).flatMap (fun f => [f.first, f.last])
+      ++ bt.map (·.1)).foldl (fun acc k => insertKey k acc) []
+    let ents := histEnts b
+    let pay : Nat → Nat → Option Blue.StoreHist.Payload := fun k t =>
+      match ents.find? (fun e => rank keys e.key == k && e.ts == t) with
+      | some e => some (if e.val.isNone then none else some 0)
+      | none => none
+    let h : Blue.StoreHist.HState :=
+      { st := { mem := vers keys b.mem, imm := b.imm.map (vers keys), l0 := b.files.map (toK keys), levels := [] }
+        seq := b.seq, vis := b.vis, pay := pay }
+    let op : Option Blue.StoreHist.Op :=
+      match opT with
+      | ["write", _] | ["reject", _] => some (.write (bt.map fun e => (rank keys e.1, if e.2 then none else some 0)))
+      | ["rollover"] => some .rollover
+      | ["flush"] => some .flush
+      | _ => none
+    match op with
+    | none => "bad-op"
+    | some op =>
+      let h' := Blue.StoreHist.apply h op
+      -- ids: the files of the state before, and the file of the state after that is new
+      let newIds := (a.files.filter fun f => !(b.files.any fun g => g.id == f.id))
+      let named : List (KFile × String) := (b.files ++ newIds).map fun f => (toK keys f, f.id)
+      let idOf (f : KFile) : String := match named.find? (fun x => kfileEq x.1 f) with
+        | some x => x.2
+        | none => "?"
+      let order := (l0Order h'.st.l0).map idOf
+      let file :=
+        if h'.st.l0.length > h.st.l0.length then
+          match h'.st.l0 with
+          | f :: _ => " file=" ++ hexOfBytes (keys.getD f.first []) ++ ":" ++ hexOfBytes (keys.getD f.last []) ++ ":"
+              ++ toString f.bts ++ ":" ++ renderHVers keys h'.pay f.vers
+          | [] => ""
+        else ""
+      "seq=" ++ toString h'.seq ++ " vis=" ++ toString h'.vis
+        ++ " mem=" ++ renderHVers keys h'.pay (cursorOrder h'.st.mem)
+        ++ " imm=" ++ (match h'.st.imm with
+            | none => "none"
+            | some i => renderHVers keys h'.pay (cursorOrder i))
+        ++ " l0=" ++ (if order.isEmpty then "-" else ",".intercalate order) ++ file
+  | _, _ => "bad-op"
+
 def handle (toks : List String) : String :=
   match toks with
+  | "hist" :: rest => handleHist rest
   | "apply" :: rest => handleApply false rest
   | "move" :: rest => handleApply true rest
   | "ingest" :: rest => handleIngest rest
